@@ -2,6 +2,7 @@
 
 run(model, inputs) -> dict(tensor index -> ndarray), tol (tensor index -> allowed |delta| in LSB, by the exact/approximate split
 of property C01).  Unsupported operator kinds raise Unsupported (the caller records 'value oracle unavailable')."""
+import os
 import math
 
 import numpy as np
@@ -617,6 +618,81 @@ class Interp:
         parts = np.split(self.get(x_i), len(op.outputs), axis=ax)
         for o_i, p in zip(op.outputs, parts):
             self.put(o_i, p, 0, [x_i], mode="move")
+
+    LSTM_TOL = int(os.environ.get("VERIF_LSTM_TOL", 2))
+
+    def op_UNIDIRECTIONAL_SEQUENCE_LSTM(self, op):
+        """Fully integer LSTM (8x8->16) of the reference, emulated in float64 with a rounding at each of the kernel's own
+        quantisation points (gates Q3.12, activations Q0.15, cell state 2^-k, hidden state int8).  The kernel's fixed-point tanh /
+        logistic are replaced by the exact functions (their error is a few 2^-15), so the result is comparable within LSTM_TOL
+        steps of the int8 output, not bit-exact."""
+        o = op.options[1] if op.options else {}
+        ins = list(op.inputs) + [-1] * (24 - len(op.inputs))
+        if len(op.inputs) != 24 or len(getattr(op, "intermediates", []) or []) != 5:
+            raise Unsupported("LSTM operand count")
+        if any(ins[i] >= 0 for i in (9, 10, 11, 16, 17, 20, 21, 22, 23)) or any(ins[i] < 0 for i in range(1, 9)):
+            raise Unsupported("LSTM with CIFG / peephole / projection / layer normalisation")
+        x_i = ins[0]
+        xt = self.m.tensors[x_i]
+        if xt.type != "INT8" or len(xt.shape) != 3:
+            raise Unsupported("LSTM activation type")
+        tm = bool(o.get("TimeMajor", False))
+        x = self.get(x_i).astype(np.float64)
+        if not tm:
+            x = x.transpose(1, 0, 2)
+        n_time, n_batch, n_in = x.shape
+        xs, xzp = self.scalar_q(x_i)
+        hs, hzp = self.scalar_q(ins[18])
+        cs, _ = self.scalar_q(ins[19])
+        hid = self.m.tensors[op.intermediates[4]]
+        hid_s, hid_zp = float(np.float32(hid.scale[0])), int(hid.zp[0]) if hid.zp else 0
+        ys, yzp = self.scalar_q(op.outputs[0])
+        n_cell = self.m.tensors[ins[19]].shape[-1]
+        W, R, B = [], [], []
+        for g in range(4):
+            w_i, r_i, b_i = ins[1 + g], ins[5 + g], ins[12 + g]
+            ws, wzp = self.scalar_q(w_i)
+            rs_, rzp = self.scalar_q(r_i)
+            W.append(((self.get(w_i).astype(np.float64) - wzp).reshape(n_cell, n_in), ws))
+            R.append(((self.get(r_i).astype(np.float64) - rzp).reshape(n_cell, n_cell), rs_))
+            B.append(self.get(b_i).astype(np.float64) if b_i >= 0 else np.zeros(n_cell))
+
+        def rnd(v):
+            return np.where(v >= 0, np.floor(v + 0.5), -np.floor(-v + 0.5))
+
+        def sat16(v):
+            return np.clip(v, -32768, 32767)
+
+        h = np.full((n_batch, n_cell), float(hzp))  # zeroed state bytes... the runtime zeroes the tensors: raw value 0
+        h[:] = 0.0
+        c = np.zeros((n_batch, n_cell))
+        cell_clip = float(o.get("CellClip", 0.0))
+        qclip = min(32767.0, max(0.0, np.floor(cell_clip / cs))) if cell_clip > 0 else 0.0
+        ys_out = np.zeros((n_time, n_batch, n_cell))
+        for t in range(n_time):
+            xt_ = x[t] - xzp
+            gates = []
+            for g in range(4):
+                (w, ws), (r, rs_) = W[g], R[g]
+                a_in = sat16(rnd((xt_ @ w.T + B[g]) * (xs * ws * 4096.0)))
+                a_rec = rnd(((h - hzp) @ r.T) * (hs * rs_ * 4096.0))
+                pre = sat16(a_in + a_rec) / 4096.0
+                if g == 2:
+                    gates.append(np.clip(rnd(np.tanh(pre) * 32768.0), -32768, 32767))
+                else:
+                    gates.append(np.clip(rnd(32768.0 / (1.0 + np.exp(-pre))), 0, 32767))
+            ig, fg, cg, og = gates
+            c = sat16(rnd(fg * c / 32768.0) + rnd(ig * cg * (2.0 ** -30) / cs))
+            if qclip > 0:
+                c = np.clip(c, -qclip, qclip)
+            th = np.clip(rnd(np.tanh(c * cs) * 32768.0), -32768, 32767)
+            h = np.clip(rnd(og * th * (2.0 ** -30) / hid_s) + hid_zp, -128, 127)
+            ys_out[t] = h
+        if abs(hid_s - hs) > 1e-12 or hid_zp != hzp or abs(ys - hs) > 1e-12 or yzp != hzp:
+            raise Unsupported("LSTM hidden / output state / output quantisation differ")
+        if not tm:
+            ys_out = ys_out.transpose(1, 0, 2)
+        self.put(op.outputs[0], ys_out.astype(np.int64), self.LSTM_TOL, [x_i])
 
     def op_SPLIT_V(self, op):
         x_i = op.inputs[0]
